@@ -110,6 +110,7 @@ class For:
 class While:
     cond: str
     body: list
+    break_on: str | None = None  # trailing `if <name>: break`
 
 
 @dataclasses.dataclass
@@ -192,6 +193,9 @@ def stmts_src(stmts, ind):
         elif isinstance(s, While):
             out.append(f"{pad}while {s.cond}:")
             out += stmts_src(s.body, ind + 1)
+            if s.break_on:
+                out.append(f"{pad}    if {s.break_on}:")
+                out.append(f"{pad}        break")
         elif isinstance(s, Raw):
             out += [pad + line for line in s.text.splitlines()]
         else:
@@ -340,6 +344,10 @@ class Interp:
         return out
 
     def op(self, name, args, attrs, n_out=1):
+        if name == "Softplus" and len(args) == 1 and isinstance(args[0], np.ndarray):
+            # onnx.reference evaluates log(exp(x) + 1) literally (inf for large x); the meaning is the overflow-free form
+            with np.errstate(all="ignore"):
+                return np.logaddexp(0, args[0]).astype(args[0].dtype)
         vals = [modelgen.Val(f"i{i}", np.asarray(a), "node") if a is not None else None for i, a in enumerate(args)]
         node = helper.make_node(name, [v.name if v is not None else "" for v in vals], [f"o{j}" for j in range(n_out)], **attrs)
         res = modelgen.eval_node(node, [v for v in vals if v is not None], self.prog.opset)
@@ -383,6 +391,8 @@ class Interp:
             k = 0
             while self.truth(env[s.cond]):
                 self.block(s.body, env)
+                if s.break_on and self.truth(env[s.break_on]):
+                    break
                 k += 1
                 if k > self.MAX_ITERS:
                     raise InterpError("too many iterations")
@@ -992,14 +1002,21 @@ class SGen:
             self.feats.add("while:data_cond")
             cond2 = Call("And", [cond2, Bin("<", Call("ReduceSum", [Call("Abs", [Var(state[0])], {})], {"keepdims": 0}), Lit(1000.0))], {})
         body.append(Assign(["go"], cond2))
-        stmt = While("go", body)
+        wbreak = None
+        if self.chance(3) and env[state[0]].dtype not in (np.bool_, np.int32) and "stop" not in env:
+            # a while loop that ALSO ends with `if stop: break`: it continues only while both conditions allow
+            c = Bin(self.pick([">", "<"]), Call("ReduceSum", [Var(state[0])], {"keepdims": 0}), Lit(self.literal_for(env[state[0]].dtype)))
+            body.append(Assign(["stop"], c))
+            wbreak = "stop"
+            self.feats.add("while:break")
+        stmt = While("go", body, wbreak)
         try:
             with np.errstate(all="ignore"):
                 it.stmt(stmt, env)
         except (InterpError, KeyError, ValueError, TypeError, IndexError):
             return None
         for n in list(env):
-            if n.startswith("tmp"):
+            if n.startswith("tmp") or (wbreak and n == "stop"):
                 env.pop(n, None)
         self.feats.add("while")
         self.feats.add("literal:promoted")
